@@ -40,7 +40,7 @@ import (
 func init() {
 	reg.Register(&reg.Spec{ID: "C26",
 		Imports: "From Coq Require Import Floats.SpecFloat.\nFrom verif Require Import lib.Base model.C24_F64 model.C24_StoreSpec model.C26.",
-		Judge:   "C26.judge", Shard: 2, Run: run})
+		Judge:   "C26.judge", Shard: 10, Run: run})
 }
 
 
@@ -67,6 +67,16 @@ func S(s string) string {
 	cur.names[s] = n
 	cur.order = append(cur.order, s)
 	return n
+}
+
+
+// typed list: an empty list carries its element type, so that no term of a
+// case needs an implicit argument to be inferred
+func tlist(ty string, items []string) string {
+	if len(items) == 0 {
+		return "(@nil " + ty + ")"
+	}
+	return List(items)
 }
 
 // wrap puts the let bindings of the interned strings around a term.
@@ -145,7 +155,7 @@ func (o op) coq() string {
 		for i, d := range o.BL {
 			l[i] = S(d)
 		}
-		return App("ODirs", List(l))
+		return App("ODirs", tlist("bytes", l))
 	}
 	panic("bad op " + o.K)
 }
@@ -187,15 +197,15 @@ func (r result) coq() string {
 	case "cmds":
 		l := make([]string, len(r.Cmds))
 		for i, x := range r.Cmds {
-			l[i] = Pair(S(x.Text), Z(int64(x.Seq)))
+			l[i] = App("pz", S(x.Text), Z(int64(x.Seq)))
 		}
-		return App("RCmds", List(l))
+		return App("RCmds", tlist("(bytes * Z)", l))
 	case "dirs":
 		l := make([]string, len(r.Dirs))
 		for i, x := range r.Dirs {
-			l[i] = Pair(S(x.Path), F64(x.Score))
+			l[i] = App("pd", S(x.Path), F64(x.Score))
 		}
-		return App("RDirs", List(l))
+		return App("RDirs", tlist("dir", l))
 	case "nomatch":
 		return "RNoMatch"
 	}
@@ -718,8 +728,7 @@ func oneRun(c *reg.Ctx, nSep, nShared, perClient, procs int) {
 	resetIntern()
 	items := make([]string, len(calls))
 	for i, k := range calls {
-		items[i] = App("mkCall", N(uint64(k.Client)), k.Op.coq(), N(uint64(k.Inv)),
-			Some(Pair(k.Res.coq(), N(uint64(k.Ret)))))
+		items[i] = App("kc", N(uint64(k.Client)), k.Op.coq(), N(uint64(k.Inv)), k.Res.coq(), N(uint64(k.Ret)))
 		d.Calls = append(d.Calls, fmt.Sprintf("#%d c%d %s = %s [%d,%d]", i, k.Client, k.Op, k.Res, k.Inv, k.Ret))
 	}
 	for i := range calls {
@@ -746,7 +755,7 @@ func oneRun(c *reg.Ctx, nSep, nShared, perClient, procs int) {
 		sb.WriteString(s)
 	}
 	sum := sha1.Sum([]byte(sb.String()))
-	rc.Coq = wrap(App("mkCase", List(items), List(ord)))
+	rc.Coq = wrap(App("mkCase", tlist("call", items), tlist("N", ord)))
 	rc.Desc = d
 	rc.Key = fmt.Sprintf("%x", sum[:8])
 	rc.Nontrivial = d.Overlaps >= len(calls)/2 && len(calls) >= 20
